@@ -19,6 +19,7 @@ type TypeRef struct {
 	Pkg   string `json:"pkg,omitempty"`   // package (directory) name of a named type
 	Name  string `json:"name,omitempty"`  // type name
 	Slice bool   `json:"slice,omitempty"` // []T
+	Map   bool   `json:"map,omitempty"`   // map[string]T (bodies and results only; never together with Slice or Ptr)
 	Ptr   bool   `json:"ptr,omitempty"`   // *T (outermost)
 }
 
@@ -290,6 +291,9 @@ func (t TypeRef) GoString(fromPkg string) string {
 	}
 	if t.Slice {
 		s += "[]"
+	}
+	if t.Map {
+		s += "map[string]"
 	}
 	switch t.Kind {
 	case "prim":
